@@ -87,7 +87,7 @@ func alphabetC10(cfg Cfg) []Op {
 
 func runC10(c *Ctx) {
 	depth := 3
-	cfgs := []Cfg{{Async: 1}, {Async: 2}, {Async: 3}}
+	cfgs := []Cfg{{Async: 1}, {Async: 2}, {Async: 3}, {Async: 1, Lower: true, Ext: ".obj"}}
 	if c.Tier == "thorough" {
 		depth = 4
 		cfgs = append(cfgs, Cfg{Async: 1, Cache: true, Compress: true}, Cfg{Async: 2, Index: 2, MapRev: true})
@@ -256,7 +256,11 @@ func runC10(c *Ctx) {
 						c.Violation(Violation{Sig: "C10|panic|" + normPanic(p.Value+" @ "+sodFrame(p.Stack)), What: "a thread panicked: " + p.Value + "\n" + trimStack(p.Stack), Cfg: cfg, More: map[string]interface{}{"program": prog, "schedule": choices}})
 						return false
 					}
-					if x.Deadlock || x.Horizon {
+					if x.Horizon {
+						c.Violation(Violation{Sig: "C10|timing|no-quiescence", What: fmt.Sprintf("the execution never quiesces: a thread keeps running without parking, or calls stay blocked after the tick budget: %v", x.Blocked), Cfg: cfg, More: map[string]interface{}{"program": prog, "schedule": choices}})
+						return false
+					}
+					if x.Deadlock {
 						c.Count("deadlocks_left_to_C09", 1)
 						return true
 					}
